@@ -1,5 +1,5 @@
 """C09 — runs always terminate with every planned task accounted for."""
-from .. import graph, model
+from .. import graph, model, reallayer
 from ..runner import Outcome
 
 ID = "C09"
@@ -10,7 +10,9 @@ RULE = ("Hypothesis-generated graph cases (1-8 tasks of all kinds, any dep listi
         "SigchldHelper and CPython Popen lifecycle. Non-trivial = the schedule contained >=2 exits "
         "coalesced into one handler run, or an exit before the pid was registered, or an exit "
         "adjacent to a Popen-initiated waitpid (handler after it), or a foreign child's exit, or an "
-        "exit while the handler's own waitpid loop ran. Distinct = SHA-1 of the canonical case JSON.")
+        "exit while the handler's own waitpid loop ran. Distinct = SHA-1 of the canonical case JSON."
+        + reallayer.RULE_NOTE + " A real-process case is non-trivial when >=2 task processes existed at once; there a hang is reported only "
+        "when cond has not returned 60 s after its start although every task process it started has exited and it has no child left.")
 ASSUMPTIONS = [
     "schedules are those of the DESIGN 2.3 model: children exit at syscall boundaries of the main "
     "thread; the Python SIGCHLD handler runs immediately before or immediately after that syscall",
@@ -25,7 +27,9 @@ def strategy(tier):
     from hypothesis import strategies as st
     general = graph.graph_case(max_tasks=8 if tier == "quick" else 10, outcomes="some",
                             foreign=True, tape_max=60, tape_hi=31)
-    return st.one_of(general, general, graph.layered_case(flags=(), p_fail_den=4))
+    virtual = st.one_of(general, general, graph.layered_case(flags=(), p_fail_den=4))
+    real = st.one_of(reallayer.real_case(), reallayer.real_case(layered=True), reallayer.real_case(max_tasks=9, jobs=(3, 4, 5, 8)))
+    return reallayer.mixed(virtual, real)
 
 
 def examples(tier):
@@ -33,6 +37,8 @@ def examples(tier):
 
 
 def run_case(case):
+    if case.get("layer") == "real":
+        return check(case, reallayer.run_real(case))
     res = graph.run_graph_case(case)
     return check(case, res)
 
@@ -44,6 +50,10 @@ def check(case, res):
     stats = res.get("kernel", {}).get("stats", {})
     labels = [k for k in NONTRIVIAL if stats.get(k)]
     labels += graph.shape_labels(case)
+    if case.get("layer") == "real":
+        labels.append("real_processes")
+        if stats.get("max_running", 0) >= 2:
+            labels.append("real_inflight>=2")
     again = "again" in case.get("flags", [])
     cached = {int(i) for i in case.get("seeded", {})}
     need, hidden = model.needed(case, case["target"], cached, again)
@@ -91,7 +101,7 @@ def check(case, res):
     want_status = 0 if not failed else 1
     if res["status"] != want_status:
         v.append(("exit_status", "exit status %r, expected %d" % (res["status"], want_status)))
-    nontrivial = bool(set(labels) & set(NONTRIVIAL))
+    nontrivial = bool(set(labels) & set(NONTRIVIAL + ["real_inflight>=2"]))
     return Outcome(v, labels, nontrivial, obs.brief())
 
 TECHNIQUE = "property-based testing (Hypothesis) over graph cases x schedule tapes, virtual-kernel schedule control, deadlock detector as bounded-liveness oracle"
